@@ -57,8 +57,33 @@ type delivBatch struct{ From, To uint64 }
 
 func (b delivBatch) String() string { return fmt.Sprintf("[%d..%d]", b.From, b.To) }
 
+// delivCodec: messages of the "replica-zstd" / "replica-snappy" targets carry compressed payloads (legal in the
+// protocol and advertised by replicas; the primary of this tree happens to send everything uncompressed).
+var delivCodec = rp.CompressionCodec_NONE
+var delivCompressor *replication.CompressionManager
+
 func (h *delivHistory) msg(b delivBatch) *rp.WALStreamResponse {
 	m := &rp.WALStreamResponse{}
+	defer func() {
+		if delivCodec == rp.CompressionCodec_NONE {
+			return
+		}
+		if delivCompressor == nil {
+			c, err := replication.NewCompressionManager()
+			if err != nil {
+				panic(err)
+			}
+			delivCompressor = c
+		}
+		for _, e := range m.Entries {
+			p, err := delivCompressor.Compress(e.Payload, delivCodec)
+			if err != nil {
+				panic(err)
+			}
+			e.Payload = p
+		}
+		m.Compressed, m.Codec = true, delivCodec
+	}()
 	for i := h.first[b.From]; i <= h.last[b.To]; i++ {
 		pe, err := replication.WALEntryToProto(h.ents[i], rp.FragmentType_FULL)
 		if err != nil {
@@ -126,6 +151,13 @@ func (t *replicaTarget) applied() []walEnt                      { return t.rec.g
 func (t *replicaTarget) nacks() []uint64                        { return t.cl.got }
 
 func newDelivTarget(kind string) delivTarget {
+	delivCodec = rp.CompressionCodec_NONE
+	switch kind {
+	case "replica-zstd":
+		delivCodec = rp.CompressionCodec_ZSTD
+	case "replica-snappy":
+		delivCodec = rp.CompressionCodec_SNAPPY
+	}
 	if kind == "applier" {
 		return &applierTarget{a: replication.NewWALBatchApplier(0)}
 	}
@@ -202,7 +234,7 @@ func delivUnit(unit string, env *fw.Env) *fw.Result {
 				} else {
 					outcomes["rejected"] = true
 				}
-				if b.From > expBefore && kind == "replica" {
+				if b.From > expBefore && strings.HasPrefix(kind, "replica") {
 					// a hole: the replica has to ask for the missing part again
 					nk := t.nacks()
 					if len(nk) == 0 || nk[len(nk)-1] != expBefore {
